@@ -10,16 +10,20 @@
 mod audit;
 mod desc;
 mod gen;
-#[cfg(not(feature = "r10"))]
+#[cfg(not(any(feature = "r10", feature = "r8")))]
 mod gen_r7;
-#[cfg(not(feature = "r10"))]
+#[cfg(not(any(feature = "r10", feature = "r8")))]
 pub(crate) use gen_r7 as g;
+#[cfg(feature = "r8")]
+mod gen_r8;
+#[cfg(feature = "r8")]
+pub(crate) use gen_r8 as g;
 #[cfg(feature = "r10")]
 mod gen_r10;
 #[cfg(feature = "r10")]
 pub(crate) use gen_r10 as g;
 
-pub const ENGINE: &str = if cfg!(feature = "r10") { "worldsim10" } else { "worldsim" };
+pub const ENGINE: &str = if cfg!(feature = "r10") { "worldsim10" } else if cfg!(feature = "r8") { "worldsim8" } else { "worldsim" };
 mod medium;
 mod obs;
 mod ops;
